@@ -281,7 +281,9 @@ Export ==
                                 THEN {[c EXCEPT !.form = c.form] @@ [hasdesc |-> DerivedDescDefined(X.d, c),
                                        desc |-> IF DerivedDescDefined(X.d, c) THEN DerivedDesc(X.d, c) ELSE Cls0("none")] :
                                       c \in DerivedCases(X.d)}
-                                ELSE {}]) \o "\n", IOEnv.OUT_FILE,
+                                ELSE {},
+                    pcases |-> IF X.d.cls = "RectPartition" /\ X.copy = 1 /\ ~HasUlp(X.d)
+                                 THEN {c @@ [desc |-> PartDerivedDesc(X.d, c)] : c \in PartCases(X.d)} ELSE {}]) \o "\n", IOEnv.OUT_FILE,
             [format |-> "TXT", charset |-> "UTF-8",
              openOptions |-> <<"WRITE", "CREATE", "APPEND">>]).exitValue = 0
 \* the export run does not expand pairs
